@@ -3,8 +3,9 @@
   bracket values that source returns".
 
   For EVERY data source `ds` (any function from scalar values to classes, any bracket map — no assumption that
-  a bracket character has class ON, that classes resemble Unicode's, or on the width of characters beyond the
-  FSI proviso of C02) and every well-formed text, the analysis the Model of the crate computes is UAX #9 — the
+  a bracket character has class ON, that classes resemble Unicode's, or on the width of the characters it gives
+  class FSI to: the FSI-width proviso of C02 is gone since the repair of finding D10) and every well-formed
+  text, the analysis the Model of the crate computes is UAX #9 — the
   Spec `Spec.paragraphLevels` (X1–X10, W1–W7, BD16/N0–N2, I1–I2, levels carried by removed characters),
   `Spec.resolveFSI` (X5c) and `Spec.paraLevel` (P2/P3) — applied to the values `ds.cls c`, `ds.brk c` of the
   text's characters:
@@ -17,7 +18,10 @@
   `BracketClassesOK ds`; they are restated here under C12 because "for every data source" is what C12 adds to
   C01.  Before the repair the statement was FALSE for a source with a bracket of class CS / ES / ET / NSM:
   the witnesses are `corpus/C12.txt` `#corpus-D9`, `#corpus-D9b`, and `exD9` below states the first one as a
-  closed computation on the repaired Model (the Model agrees with the Spec on it).
+  closed computation on the repaired Model (the Model agrees with the Spec on it).  Before the repair of
+  finding D10 (X5c rewrote `char_len(U+2068)` code units at an FSI's position, whatever character carried the
+  class) it was false, or the crate panicked, for a source that gives class FSI to a character of another
+  width: the witness is in the last section below, again on the repaired Model.
 
   Line queries on top of the stored analysis (L1, L2, runs, reordered line) do not consult the data source at
   all (C03–C06 are stated over the stored classes and levels), so this covers the whole clause.
@@ -25,13 +29,13 @@
 import UBidi.Props.C01Levels
 namespace UBidi.Props.C12Spec
 open UBidi UBidi.BidiClass UBidi.Expand
-open UBidi.Props.C02 (raw FSIWidth segsIn)
+open UBidi.Props.C02 (raw segsIn)
 open UBidi.Props.C01Levels (paraChars)
 
 /-- **C12 for `BidiInfo::new_with_data_source`**: for every data source, no panic, and every reported
     paragraph carries the Spec's levels / X5c classes / P2-P3 level of the source's class and bracket values. -/
 theorem C12_any_source (ds : DataSource)
-    (t : Text) (hwf : t.WF) (hfsi : FSIWidth ds t) (d : Option Nat) (hd : ∀ l, d = some l → l ≤ 1) :
+    (t : Text) (hwf : t.WF) (d : Option Nat) (hd : ∀ l, d = some l → l ≤ 1) :
     let b := bidiInfo ds t d
     b.err = none ∧
     ∀ p ∈ b.paras,
@@ -42,13 +46,13 @@ theorem C12_any_source (ds : DataSource)
       (paraChars ds t b.classes p).map (·.cls) =
         Spec.resolveFSI ((segsIn t p).map (fun s => ds.cls s.cp)) ∧
       p.level = Spec.paraLevel d ((segsIn t p).map (fun s => ds.cls s.cp)) :=
-  C01Levels.C01_bidiInfo ds t hwf hfsi d hd
+  C01Levels.C01_bidiInfo ds t hwf d hd
 
 /-- **C12 for `ParagraphBidiInfo::new_with_data_source`** on a text that is one paragraph (no class-B character
     except possibly the last): for every data source, no panic; the levels are the expansion of the Spec's levels
     of the characters with their reported classes (X5c of the source's classes) at the P2/P3 paragraph level. -/
 theorem C12_any_source_single (ds : DataSource)
-    (t : Text) (hwf : t.WF) (hfsi : FSIWidth ds t) (d : Option Nat) (hd : ∀ l, d = some l → l ≤ 1)
+    (t : Text) (hwf : t.WF) (d : Option Nat) (hd : ∀ l, d = some l → l ≤ 1)
     (hB : ∀ c ∈ (raw ds t).dropLast, c ≠ B) :
     let q := paragraphBidiInfo ds t d
     q.err = none ∧
@@ -56,7 +60,7 @@ theorem C12_any_source_single (ds : DataSource)
     contract t q.levels 0 = Spec.paragraphLevels q.paraLevel (Lemmas.C01Compose.charsOf ds t q.classes) ∧
     (Lemmas.C01Compose.charsOf ds t q.classes).map (·.cls) = Spec.resolveFSI (raw ds t) ∧
     q.paraLevel = Spec.paraLevel d (raw ds t) :=
-  C01Levels.C01_paragraphBidiInfo ds t hwf hfsi d hd hB
+  C01Levels.C01_paragraphBidiInfo ds t hwf d hd hB
 
 /-! ### the D9 witness, on the repaired Model -/
 
@@ -81,9 +85,47 @@ example : Spec.paragraphLevels 0
     = [1, 1, 1, 1, 1, 1, 0] := by decide +kernel
 
 /-- (non-vacuity) the hypotheses of `C12_any_source` hold for this source and text -/
-example : textD9.WF ∧ FSIWidth dsD9 textD9 ∧ (∀ l, some 0 = some l → l ≤ 1) := by
-  refine ⟨⟨by simp [textD9, Text.layout, SegsFrom, Enc.charLen], by decide⟩, ?_, by intro l h; cases h; decide⟩
-  unfold FSIWidth
+example : textD9.WF ∧ (∀ l, some 0 = some l → l ≤ 1) :=
+  ⟨⟨by simp [textD9, Text.layout, SegsFrom, Enc.charLen], by decide⟩, by intro l h; cases h; decide⟩
+
+/-! ### the D10 witness, on the repaired Model -/
+
+/-- the data source of the D10 witness: the one-unit ASCII letter `x` has class **FSI**, U+05D0 has class R,
+    everything else L; no brackets -/
+def dsD10 : DataSource :=
+  { cls := fun cp => if cp == 0x78 then FSI else if cp == 0x5D0 then R else L,
+    brk := fun _ => none }
+
+/-- `x א` as a `&str`: 3 bytes (`x` one byte, `א` two) -/
+def textD10 : Text := Text.ofScalars [0x78, 0x5D0]
+
+/-- `x a` as a `&str`: 2 bytes -/
+def textD10b : Text := Text.ofScalars [0x78, 0x61]
+
+/-- (test) X5c rewrites the one code unit of `x` — the character that sits at the FSI's position — to RLI and
+    leaves the two units of `א` alone, and nothing panics.  The unrepaired crate wrote
+    `char_len(U+2068)` = 3 units from the position of `x` and reported `[RLI, RLI, RLI]`: the class R of `א`
+    was overwritten. -/
+example : (bidiInfo dsD10 (Text.ofScalars [0x78, 0x5D0]) none).classes = [RLI, R, R] ∧
+    (bidiInfo dsD10 (Text.ofScalars [0x78, 0x5D0]) none).err = none := by
   decide +kernel
+
+/-- (test) `x a`: 2 bytes; the one unit of `x` becomes LRI, no panic.  The unrepaired crate wrote 3 units
+    into a vector of 2 and panicked (index out of bounds). -/
+example : (bidiInfo dsD10 (Text.ofScalars [0x78, 0x61]) none).classes = [LRI, L] ∧
+    (bidiInfo dsD10 (Text.ofScalars [0x78, 0x61]) none).err = none := by
+  decide +kernel
+
+/-- (test) and the levels are UAX #9's for these class values: `x` (RLI, level 0) opens an isolate in which `א`
+    gets level 1 -/
+example : (bidiInfo dsD10 textD10 none).levels = [0, 1, 1] ∧
+    Spec.paragraphLevels 0 [{ cls := RLI, brk := none }, { cls := R, brk := none }] = [0, 1] := by
+  decide +kernel
+
+/-- (non-vacuity) the hypotheses of `C12_any_source` hold for this source and these texts — nothing is asked
+    of the width of `x` — so the theorem applies to them -/
+example : textD10.WF ∧ textD10b.WF ∧ (bidiInfo dsD10 textD10 none).err = none :=
+  ⟨C01.Base.ofScalars_WF _, C01.Base.ofScalars_WF _,
+    (C12_any_source dsD10 textD10 (C01.Base.ofScalars_WF _) none (by intro l h; cases h)).1⟩
 
 end UBidi.Props.C12Spec
